@@ -198,9 +198,15 @@ pub fn expected_conflicts(g: &Grammar, a: &Analysis) -> (ConflictSet, ConflictSe
                             outside = outside.union(&s.follow[occ]);
                         }
                     }
+                    // the end of a part's input follows the part's rule from outside as well
+                    if let Some(pi) = g.parts.iter().position(|p| *p == node.rule) {
+                        outside.insert(crate::refan::part_eof_index(g, pi));
+                    }
+                    // the operator: first element behind the left operand
                     let op_of = |b: &PrattBranch| -> Option<usize> {
                         let ch = &flat.nodes[b.branch].children;
-                        ch.iter().copied().filter(|c| !matches!(flat.nodes[*c].kind, K::Pred(_))).nth(1)
+                        let l = b.left?;
+                        ch.iter().copied().enumerate().find(|(j, c)| *j > l && !matches!(flat.nodes[*c].kind, K::Pred(_))).map(|(_, c)| c)
                     };
                     for (i, b) in left_rec.iter().enumerate() {
                         if has_leading_pred(flat, b.branch) {
